@@ -317,7 +317,12 @@ impl std::ops::Neg for &'_ SparqlNumber {
 
     fn neg(self) -> Self::Output {
         match self {
-            SparqlNumber::NativeInt(inner) => Some((-inner).into()),
+            // NB: the opposite of isize::MIN does not fit in an isize
+            SparqlNumber::NativeInt(inner) => Some(
+                inner
+                    .checked_neg()
+                    .map_or_else(|| (-BigInt::from(*inner)).into(), Into::into),
+            ),
             SparqlNumber::BigInt(inner) => Some((-inner).into()),
             SparqlNumber::Decimal(inner) => Some((-inner).into()),
             SparqlNumber::Float(inner) => Some((-inner).into()),
